@@ -13,6 +13,7 @@ from .c04 import PL2, PL3, place
 
 PROPERTY = "C19"
 ENGINE = "E2"
+TECHNIQUE = "bounded-exhaustive enumeration of shapes of all ten classes and of GSD spec variants through the three round trips"
 RULE = (
     "cases = shapes of all ten classes from the alphabets (S3 lattice hulls as ConvexPolyhedron/Polyhedron/ConvexSpheropolyhedron, VOX "
     "solids, P2 polygons in both orientations, CP2 as ConvexPolygon/ConvexSpheropolygon, CURV curved shapes), placed away from the "
